@@ -32,6 +32,9 @@ func c02Shapes() []c02Shape {
 	}
 	out = append(out, c02Shape{"AX", "", 0, 16, false, "invalid16"}, c02Shape{"SP", "", 0, 16, false, "invalid16"},
 		c02Shape{"BX", "BP", 1, 16, false, "invalid16"}, c02Shape{"SI", "DI", 1, 16, false, "invalid16"}, c02Shape{"CX", "DX", 1, 16, false, "invalid16"})
+	// mixed register widths are not an addressing form of any mode
+	out = append(out, c02Shape{"BX", "EAX", 1, 16, false, "invalid_mixed"}, c02Shape{"EAX", "SI", 1, 16, false, "invalid_mixed"},
+		c02Shape{"EBX", "BX", 1, 16, false, "invalid_mixed"}, c02Shape{"BP", "EDI", 1, 16, false, "invalid_mixed"})
 	// 32-bit addressing
 	for bi := -1; bi < 8; bi++ {
 		b := ""
